@@ -6,7 +6,7 @@ from typing import Any, Callable, NamedTuple
 
 from ...code_tools.cascade_namespace import BuiltinCascadeNamespace, CascadeNamespace
 from ...code_tools.code_builder import CodeBuilder
-from ...code_tools.utils import get_literal_expr, get_literal_from_factory, is_singleton
+from ...code_tools.utils import can_be_keyword_arg, get_literal_expr, get_literal_from_factory, is_singleton
 from ...common import Dumper
 from ...compat import CompatExceptionGroup
 from ...definitions import DebugTrail
@@ -195,7 +195,8 @@ class BuiltinModelDumperGen(ModelDumperGen):
     def _gen_access_expr(self, namespace: CascadeNamespace, field: OutputField) -> str:
         accessor = field.accessor
         if isinstance(accessor, DescriptorAccessor):
-            if accessor.attr_name.isidentifier():
+            # keyword can not be used as an attribute name, compiler applies NFKC normalization to identifiers
+            if accessor.attr_name.isidentifier() and can_be_keyword_arg(accessor.attr_name):
                 return f"data.{accessor.attr_name}"
             return f"getattr(data, {accessor.attr_name!r})"
         if isinstance(accessor, ItemAccessor):
